@@ -297,7 +297,9 @@ func (ctrl *QController[Input, Output]) reconcileRunning(ctx context.Context, lo
 
 // handleOutputTearingDown checks if output is being torn down. If it is, it will check if it is ready to be destroyed, will destroy it.
 func (ctrl *QController[Input, Output]) handleOutputTearingDown(ctx context.Context, r controller.QRuntime, mappedOut Output) error {
-	output, err := r.Get(ctx, mappedOut.Metadata())
+	// the output is this controller's own write: read it from the state, as the cache (if the output kind is cached)
+	// might still show a previous, torn down incarnation of the output which was already destroyed and re-created
+	output, err := r.GetUncached(ctx, mappedOut.Metadata())
 	if err != nil && !state.IsNotFoundError(err) {
 		return err
 	}
